@@ -930,6 +930,42 @@ def check_no_stale_heads(ctx, F):
     ctx.extra['consuming_functions_with_helper_calls'] = n
 
 
+def check_chain_export_not_truncated(ctx, F):
+    """The truncating chunker (the function AnsCoder::into_compressed turns its state into words with) drops the zero words at
+    the top of its argument.  That is lossless only for a value whose top set bit is a marker that the importer puts back; a
+    head with the marker removed, or any other derived value, loses the zero words below the marker (ANS: F13).  Every use of
+    it inside the chain coder therefore gets a head itself."""
+    from vlib import anchors
+    chunker = anchors.state_chunker(F)
+    key = 'R4/chain-export-not-truncated'
+    role = 'the truncating chunker is only applied to a head with its marker bit'
+    if chunker is None:
+        return ctx.unresolved('R4', role, CHAIN, 'the chunker of the ANS coder could not be resolved', key=key)
+    n = 0
+    bad = None
+    for b in F.bodies:
+        if b.promoted is not None or '::tests' in b.defpath or b.dk not in ('Fn', 'AssocFn') or not (b.file or '').endswith('stream/chain.rs'):
+            continue
+        if not any((callee(t) or {}).get('def') == chunker.defpath for _, t in b.calls()):
+            continue
+        ctx.touch(b)
+        try:
+            _, paths = rules.evaluate(b)
+        except sym.TooManyPaths:
+            return ctx.unresolved('R4', role, b.defpath, 'too many paths', key=key)
+        for r in paths or []:
+            for e in r.events:
+                if e['kind'] == 'call' and e['callee'] == chunker.defpath:
+                    n += 1
+                    a = e['args'][0]
+                    if not (a[0] == 'in' and ('f', 'heads') in a[1] and a[1][-1] in (('f', 'remainders'), ('f', 'compressed'))):
+                        bad = bad or (b, '%s chunks `%s` instead of a head itself: zero words directly below the marker are dropped at %s, so binary data that ends in zero words comes back shorter' % (b.name, sym.show(a)[:100], e['span'].split('-')[0]))
+    if bad:
+        ctx.bad('R4', role, bad[0].defpath, bad[1], key=key, loc=rules.loc(bad[0]))
+    else:
+        ctx.ok('R4', role, CHAIN, '%d use(s) of %s in the chain coder%s' % (n, chunker.name, '' if n else ' (its exporters move their heads word by word)'), key=key)
+
+
 def run(ctx):
     F = ctx.F
     check_out_of_data(ctx, F)
@@ -940,6 +976,7 @@ def run(ctx):
     check_heads_ctor_initial_nonzero(ctx, F)
     check_remainders_import_refusals(ctx, F)
     check_refused_export_untouched(ctx, F)
+    check_chain_export_not_truncated(ctx, F)
     check_precision_changers(ctx, F)
     check_heads_closed(ctx, F)
     check_marker_sentinel(ctx, F)
